@@ -7,6 +7,7 @@ k-points — is saved with `to_npz` and loaded with `from_npz`; a WannierData co
 loaded / written as a whole.  The readers are additionally fed files produced by an independent
 writer of the harness, so that a reader fault cannot hide behind a writer fault (and vice versa).
 """
+import contextlib
 import inspect
 import itertools
 import os
@@ -30,6 +31,8 @@ ASSUMPTIONS = [
     "|values| < 1e4 so that '%17.12f' keeps 12 decimals; equality of text round trips means |diff| <= 0.5e-12 (+1 ulp)",
     "MMN.to_w90_file may take the neighbour table as an argument (`bkvec`); the check passes it when the signature has it",
     "UNK, SOC, WIN and the SAWF symmetrizer objects are outside the space (no synthetic constructor without DFT data)",
+    "AMN/MMN readers fork a multiprocessing.Pool per call: the real pool is used once per 'generic' case (npar=2); all other "
+    "reads replace it by an in-process map (cost), with npar in {1,2} still steering the readers' chunking logic",
 ]
 
 MESH_Q = ((1, 1, 1), (2, 1, 1), (2, 2, 1))
@@ -154,6 +157,22 @@ def allow_children():
         pass
 
 
+def read_amn(sn, npar, real):
+    """real=True: the reader's own multiprocessing.Pool(npar); otherwise an in-process map (npar still steers the
+    reader's chunking logic)"""
+    from wannierberri.w90files.amn import AMN
+    from wbmc.roundtrip_util import serial_pools
+    with (contextlib.nullcontext() if real else serial_pools()):
+        return AMN.from_w90_file(sn, npar=npar)
+
+
+def read_mmn(sn, bk, npar, real):
+    from wannierberri.w90files.mmn import MMN
+    from wbmc.roundtrip_util import serial_pools
+    with (contextlib.nullcontext() if real else serial_pools()):
+        return MMN.from_w90_file(sn, bkvec=bk, npar=npar)
+
+
 def text_close(a, b):
     """'%17.12f' : absolute rounding error <= 0.5e-12 per real component"""
     a, b = np.asarray(a), np.asarray(b)
@@ -269,7 +288,7 @@ def run_ref(case, seed):
             ref_write_amn(sn, A)
             for npar in (1, 2):
                 try:
-                    a = AMN.from_w90_file(sn, npar=npar)
+                    a = read_amn(sn, npar, real=(pat == "generic" and npar == 2))
                 except Exception as ex:
                     return fail(f"AMN.from_w90_file:{type(ex).__name__}", f"NK={NK} NB={NB} NW={NW} npar={npar}: {type(ex).__name__}: {ex}")
                 if (a.NK, a.NB, a.NW) != (NK, NB, NW):
@@ -289,7 +308,7 @@ def run_ref(case, seed):
                 ref_write_mmn(sn, M, bk, order)
                 for npar in (1, 2):
                     try:
-                        m = MMN.from_w90_file(sn, bkvec=bk, npar=npar)
+                        m = read_mmn(sn, bk, npar, real=(pat == "generic" and npar == 2 and ro == "identity"))
                     except Exception as ex:
                         return fail(f"MMN.from_w90_file:{type(ex).__name__}",
                                     f"NK={NK} NNB={bk.NNB} NB={NB} order={ro} npar={npar}: {type(ex).__name__}: {ex}")
@@ -327,7 +346,7 @@ def roundtrip_eig(obj, sn, NK, NB, tag):
     return None
 
 
-def roundtrip_amn(obj, sn, tag, npars=(1, 2)):
+def roundtrip_amn(obj, sn, tag, npars=(1, 2), real_npar=()):
     from wannierberri.w90files.amn import AMN
     try:
         obj.to_w90_file(sn)
@@ -335,7 +354,7 @@ def roundtrip_amn(obj, sn, tag, npars=(1, 2)):
         return fail("AMN.to_w90_file", f"{tag}: {type(ex).__name__}: {ex} (in {innermost(ex)})")
     for npar in npars:
         try:
-            back = AMN.from_w90_file(sn, npar=npar)
+            back = read_amn(sn, npar, real=npar in real_npar)
         except Exception as ex:
             return fail(f"AMN.from_w90_file:{type(ex).__name__}", f"{tag} npar={npar} file written by AMN.to_w90_file: {type(ex).__name__}: {ex}")
         ok, msg = obj.equals(back, tolerance=1e-11)
@@ -347,7 +366,7 @@ def roundtrip_amn(obj, sn, tag, npars=(1, 2)):
     return None
 
 
-def roundtrip_mmn(obj, sn, bk, tag, npars=(1, 2)):
+def roundtrip_mmn(obj, sn, bk, tag, npars=(1, 2), real_npar=()):
     from wannierberri.w90files.mmn import MMN
     try:
         write_mmn(obj, sn, bk)
@@ -355,7 +374,7 @@ def roundtrip_mmn(obj, sn, bk, tag, npars=(1, 2)):
         return fail("MMN.to_w90_file", f"{tag}: {type(ex).__name__}: {ex} (in {innermost(ex)})")
     for npar in npars:
         try:
-            back = MMN.from_w90_file(sn, bkvec=bk, npar=npar)
+            back = read_mmn(sn, bk, npar, real=npar in real_npar)
         except Exception as ex:
             return fail(f"MMN.from_w90_file:{type(ex).__name__}", f"{tag} npar={npar} file written by MMN.to_w90_file: {type(ex).__name__}: {ex}")
         ok, msg = obj.equals(back, tolerance=1e-11, check_reorder=False)
@@ -379,6 +398,9 @@ def run_text(case, seed):
     cls = case["cls"]
     NK, NB, NW, pat = int(np.prod(mp)), case["NB"], case.get("NW"), case["pattern"]
     r = None
+    # the readers fork a process pool per call; the real pool is used once per 'generic' case (npar=2), an
+    # in-process map elsewhere (npar still steers the readers' chunking)
+    real_npar = (2,) if pat == "generic" else ()
     with scratch() as d:
         sn = os.path.join(d, "w")
         if cls == "EIG":
@@ -407,7 +429,7 @@ def run_text(case, seed):
                     if r:
                         break
             else:
-                r = roundtrip_amn(AMN(data=generic_array((NK, NB, NW), pat, seed, "A")), sn, tag)
+                r = roundtrip_amn(AMN(data=generic_array((NK, NB, NW), pat, seed, "A")), sn, tag, real_npar=real_npar)
         else:
             bk, _ = make_bkvec(case["lat"], mp)
             NNB = bk.NNB
@@ -424,7 +446,7 @@ def run_text(case, seed):
                     if r:
                         break
             else:
-                r = roundtrip_mmn(MMN(data=generic_array((NK, NNB, NB, NB), pat, seed, "M")), sn, bk, tag)
+                r = roundtrip_mmn(MMN(data=generic_array((NK, NNB, NB, NB), pat, seed, "M")), sn, bk, tag, real_npar=real_npar)
     if r:
         if r.get("nontrivial") is True:
             r["nontrivial"] = nt
@@ -447,7 +469,7 @@ def run_text_reordered(case, seed):
         sn = os.path.join(d, "w")
         ref_write_mmn(sn, M, bk, order)
         try:
-            obj = MMN.from_w90_file(sn, bkvec=bk, npar=1)
+            obj = read_mmn(sn, bk, 1, real=False)
         except Exception as ex:
             return fail(f"MMN.from_w90_file:{type(ex).__name__}", f"reordered reference file: {type(ex).__name__}: {ex}")
         r = roundtrip_mmn(obj, os.path.join(d, "w2"), bk, f"NK={NK} NNB={NNB} NB={NB} bk_reorder={case['reorder']}", npars=(1,))
@@ -654,8 +676,8 @@ def run_container(case, seed):
                 return fail(writer_key(ex), f"WannierData.write(files=[eig,amn,mmn]) {tag}: {type(ex).__name__}: {ex} (in {innermost(ex)})")
             try:
                 e = EIG.from_w90_file(sn2)
-                a = AMN.from_w90_file(sn2, npar=1)
-                m = MMN.from_w90_file(sn2, bkvec=bk, npar=1)
+                a = read_amn(sn2, 1, real=False)
+                m = read_mmn(sn2, bk, 2, real=(NK == 4 and case["NB"] == 3))
             except Exception as ex:
                 if NK * case["NB"] == 1 and innermost(ex) == "from_w90_file" and "eig.py" in "".join(traceback.format_tb(ex.__traceback__)):
                     return fail(f"EIG.from_w90_file:{type(ex).__name__}:single_line", f"{tag}: {type(ex).__name__}: {ex}", False)
